@@ -1,5 +1,6 @@
 import ArrowModel.C13.Model
 import ArrowModel.C13.DType
+import ArrowModel.C13.Float
 /-
 C13 — helper lemmas (columns, integer division and rounding, powers of ten, the decimal
 precision tables).
@@ -454,6 +455,99 @@ theorem parseInt_formatInt (lo hi x : Int) (hlo : lo ≤ 0) (hhi : 0 ≤ hi) (hx
     rw [hfmt, hct, hsig, ← hct]
     simp only [atoiLoop_digits false lo hi _ (hdig _), hacc, hval]
     simp
+
+end ArrowModel.C13
+
+/-! ### floating point -/
+namespace ArrowModel.C13
+open ArrowModel.Generated.C13
+
+theorem precFilter_eq (w p : Nat) (hw : WidthOK w) (hp : p ≤ maxPrecision w) (r : Int) :
+    (if nativeOk w r ∧ validPrec w p r = true then some r else none) =
+      (if fitsPrec p r then some r else none) := by
+  by_cases h1 : fitsPrec p r
+  · have h3 := hw.native p _ hp h1
+    have h4 := (hw.prec p _ hp).2 h1
+    simp [h1, h3, h4]
+  · have h4 : ¬ (validPrec w p r = true) := fun h => h1 ((hw.prec p _ hp).1 h)
+    simp [h1, h4]
+
+theorem floatProdToDec_exact (w p : Nat) (hw : WidthOK w) (hp : p ≤ maxPrecision w)
+    (neg : Bool) (m : Nat) (e : Int) :
+    floatProdToDec w p (.fin neg m e) = floatToDecSpec p 0 neg m e := by
+  simp only [floatProdToDec, floatToDecSpec, fRound, Int.toNat_zero, Nat.pow_zero, Nat.mul_one, Int.neg_zero]
+  exact precFilter_eq w p hw hp _
+
+/-- half-away rounding written as one floor: `⌊(2a + d) / 2d⌋` -/
+theorem roundNat_eq (a d : Nat) (hd : 0 < d) :
+    (if 2 * (a % d) ≥ d then a / d + 1 else a / d) = (2 * a + d) / (2 * d) := by
+  have h := Nat.div_add_mod a d
+  have hr := Nat.mod_lt a hd
+  generalize a / d = q at *
+  generalize a % d = r at *
+  by_cases hc : 2 * r ≥ d
+  · simp only [hc, if_true]
+    symm
+    apply Nat.div_eq_of_lt_le
+    · have : (q + 1) * (2 * d) = 2 * (d * q) + 2 * d := by
+        rw [Nat.add_mul, Nat.mul_comm q (2 * d), Nat.mul_assoc]; omega
+      omega
+    · have : (q + 1 + 1) * (2 * d) = 2 * (d * q) + 4 * d := by
+        rw [Nat.add_mul, Nat.add_mul, Nat.mul_comm q (2 * d), Nat.mul_assoc]; omega
+      omega
+  · simp only [hc, if_false]
+    symm
+    apply Nat.div_eq_of_lt_le
+    · have : q * (2 * d) = 2 * (d * q) := by rw [Nat.mul_comm q (2 * d), Nat.mul_assoc]
+      omega
+    · have : (q + 1) * (2 * d) = 2 * (d * q) + 2 * d := by
+        rw [Nat.add_mul, Nat.mul_comm q (2 * d), Nat.mul_assoc]; omega
+      omega
+
+/-- equal fractions round alike -/
+theorem roundNat_congr (a b c d : Nat) (hb : 0 < b) (hd : 0 < d) (h : a * d = c * b) :
+    (2 * a + b) / (2 * b) = (2 * c + d) / (2 * d) := by
+  rw [← Nat.mul_div_mul_right (2 * a + b) (2 * b) hd, ← Nat.mul_div_mul_right (2 * c + d) (2 * d) hb]
+  have e1 : (2 * a + b) * d = (2 * c + d) * b := by
+    rw [Nat.add_mul, Nat.add_mul, Nat.mul_assoc, Nat.mul_assoc, h, Nat.mul_comm b d]
+  have e2 : 2 * b * d = 2 * d * b := by rw [Nat.mul_assoc, Nat.mul_assoc, Nat.mul_comm b d]
+  rw [e1, e2]
+
+theorem dRHA_signed (neg : Bool) (a d : Nat) (hd : 0 < d) :
+    divRoundHalfAway (if neg = true then -(a : Int) else (a : Int)) d =
+      if neg = true then -(((2 * a + d) / (2 * d) : Nat) : Int) else (((2 * a + d) / (2 * d) : Nat) : Int) := by
+  unfold divRoundHalfAway
+  cases neg with
+  | false =>
+    have h0 : ¬ ((a : Int) < 0) := by omega
+    simp only [Bool.false_eq_true, if_false, h0, Int.natAbs_natCast, roundNat_eq a d hd]
+  | true =>
+    simp only [if_true, Int.natAbs_neg, Int.natAbs_natCast, roundNat_eq a d hd]
+    by_cases h : (-(a : Int) < 0)
+    · simp only [h, if_true]
+    · have ha : a = 0 := by omega
+      subst ha
+      have h0 : (2 * 0 + d) / (2 * d) = 0 := Nat.div_eq_of_lt (by omega)
+      simp only [h, if_false, h0]; rfl
+
+/-- **when the binary64 product `x = 10^s · v` carries no rounding error, the cast result is
+the exact specification** -/
+theorem floatToDec_exact_of_prod (w p : Nat) (s : Int) (hw : WidthOK w) (hp : p ≤ maxPrecision w)
+    (neg : Bool) (m : Nat) (e : Int) (m2 : Nat) (e2 : Int)
+    (hx : m * 2 ^ e.toNat * 10 ^ s.toNat * 2 ^ (-e2).toNat = m2 * 2 ^ e2.toNat * 2 ^ (-e).toNat * 10 ^ (-s).toNat) :
+    floatProdToDec w p (.fin neg m2 e2) = floatToDecSpec p s neg m e := by
+  have hd1 : 0 < 2 ^ (-e2).toNat := Nat.pow_pos (by decide)
+  have hd2 : 0 < 2 ^ (-e).toNat * 10 ^ (-s).toNat := Nat.mul_pos (Nat.pow_pos (by decide)) (Nat.pow_pos (by decide))
+  have hc := roundNat_congr (m2 * 2 ^ e2.toNat) (2 ^ (-e2).toNat) (m * 2 ^ e.toNat * 10 ^ s.toNat)
+    (2 ^ (-e).toNat * 10 ^ (-s).toNat) hd1 hd2 (by rw [← Nat.mul_assoc]; exact hx.symm)
+  have hval : fRound neg m2 e2 =
+      divRoundHalfAway (if neg = true then -((m * 2 ^ e.toNat * 10 ^ s.toNat : Nat) : Int) else ((m * 2 ^ e.toNat * 10 ^ s.toNat : Nat) : Int))
+        (2 ^ (-e).toNat * 10 ^ (-s).toNat) := by
+    unfold fRound
+    rw [dRHA_signed neg _ _ hd1, dRHA_signed neg _ _ hd2, hc]
+  simp only [floatProdToDec, floatToDecSpec]
+  rw [precFilter_eq w p hw hp]
+  simp only [hval]
 
 end ArrowModel.C13
 
